@@ -58,6 +58,25 @@ Theorem C10_teardown_terminates : forall n st e,
               pending_rids st' = [] /\ c_err_sent st' = true.
 Proof. exact td_terminates. Qed.
 
+(* The peer can cut after any chunk: in an open state a chunk is always accepted, and if the
+   connection survives it, end of stream puts it into teardown (inside a header or inside a body). *)
+Theorem C10_cut_anywhere : forall st bs, c_status st = Open ->
+  exists st1, step st (Recv bs) = Some st1 /\
+    (c_status st1 <> Open \/
+     exists st2 e, step st1 Eof = Some st2 /\ c_status st2 = TearingDown e /\ (e = EHeaderIo \/ e = EClosedInBody)).
+Proof. exact cut_anywhere. Qed.
+
+(* Top-level corollary: after ANY history, once any step has put the connection into teardown,
+   exactly [td_measure] teardown steps complete every request ever submitted (or its caller had
+   dropped it), and the error reaches the pool. *)
+Theorem C10_fault_completes_all : forall ctl ls l st st2 e,
+  run (conn_init ctl) ls = Some st -> step st l = Some st2 -> c_status st2 = TearingDown e ->
+  exists st3, run st2 (repeat TdStep (td_measure st2)) = Some st3 /\ c_status st3 = Broken e /\
+    c_err_sent st3 = true /\
+    forall r, In r (c_submitted st2) ->
+      (exists o, outcome_of r (c_done st3) = Some o) \/ In r (c_cancelled st3).
+Proof. exact fault_completes_all. Qed.
+
 (* No caller is handed a partial frame: a delivered frame has a 9 byte header that passed the
    checks of read_response_frame, exactly the announced number of body bytes, and all of it is a
    contiguous part of the bytes received on the connection. *)
@@ -177,6 +196,8 @@ Print Assumptions C10_none_left.
 Print Assumptions C10_later_submit_fails.
 Print Assumptions C10_teardown_progress.
 Print Assumptions C10_teardown_terminates.
+Print Assumptions C10_cut_anywhere.
+Print Assumptions C10_fault_completes_all.
 Print Assumptions C10_no_partial.
 Print Assumptions C10_no_cross.
 Print Assumptions C10_unique.
